@@ -124,6 +124,13 @@ def gen_cases(ctx) -> List[Dict[str, Any]]:
     for n in ((300_000,) if ctx.tier == "quick" else (300_000, 2_000_000)):
         for e in ("normal", "cancel", "fail_after"):
             cases.append({"behaviour": f"junk_batch:{n}", "exit": e, "moment": "before_first", "idle": 0.3})
+    # a request made through the per-request API is still unanswered when the context is left (every exit path)
+    for b in ("never_read", "ignore_sigterm", "well_behaved", "sigterm_slow:0.5"):
+        for e in exits + ["deadline_during_exit"]:
+            c = {"behaviour": b, "exit": e, "moment": "before_first", "api": "client_object_pending_stream", "idle": 0.2}
+            if e == "deadline_during_exit":
+                c["cancel_after"] = 1.2
+            cases.append(c)
     # an idle application: the child has sent a finite backlog (progress of a request given up long ago, then one message
     # that carries an id) which nobody reads, and then the context is left
     for n in ((99, 100, 130) if ctx.tier == "quick" else (50, 99, 100, 101, 130, 400)):
